@@ -41,6 +41,8 @@ func runC14(p *core.Program, r *core.Report) {
 	r.Rule("C14.geometry", "register width/mask/addressing agree across Set, Get, UpdateIfGreater and Merge", 5)
 	r.Rule("C14.index", "index = top log2m bits of the hash; rank = clz((hash << log2m) | guard bit) + 1", 2)
 	r.Rule("C14.serial", "GetBytes ~ BuildHyperLogLog agree on the layout", 1)
+	r.Rule("C14.widen", "estimator arithmetic widens before it multiplies: no float64/int64 conversion of a product or shift computed in a 32-bit integer type (m*m wraps at log2m = 16)", 1)
+	c14Widen(p, r)
 	c14Pure(p, r)
 	c14Max(p, r)
 	c14Geometry(p, r)
@@ -212,9 +214,49 @@ func c14Max(p *core.Program, r *core.Report) {
 		r.Undec("C14.max", "util/hll.(*RegisterSet).UpdateIfGreater", "-", "not found")
 	} else {
 		rn := recvName(fi)
-		ps, _ := paths.Enumerate(fi.Decl.Body, paths.Config{Info: fi.Pkg.TypesInfo,
+		info := fi.Pkg.TypesInfo
+		norm := func(e ast.Expr) string { return stripSpaces(types.ExprString(e)) }
+		// the two compared quantities, found by what they are computed from (not by name): the current
+		// register value is read from the word array, the new one is derived from the value parameter
+		curName, newName := "", ""
+		var valueParam types.Object
+		if fi.Decl.Type.Params.NumFields() >= 2 {
+			var all []*ast.Ident
+			for _, f := range fi.Decl.Type.Params.List {
+				all = append(all, f.Names...)
+			}
+			valueParam = info.Defs[all[len(all)-1]]
+		}
+		ast.Inspect(fi.Decl.Body, func(n ast.Node) bool {
+			as, ok := n.(*ast.AssignStmt)
+			if !ok || len(as.Lhs) != 1 || len(as.Rhs) != 1 || as.Tok != token.DEFINE {
+				return true
+			}
+			lid, ok := as.Lhs[0].(*ast.Ident)
+			if !ok {
+				return true
+			}
+			readsM, usesValue := false, false
+			ast.Inspect(as.Rhs[0], func(m ast.Node) bool {
+				if ix, ok := m.(*ast.IndexExpr); ok && strings.HasPrefix(norm(ix.X), rn+".M") {
+					readsM = true
+				}
+				if id, ok := m.(*ast.Ident); ok && valueParam != nil && info.ObjectOf(id) == valueParam {
+					usesValue = true
+				}
+				return true
+			})
+			if readsM && curName == "" {
+				curName = lid.Name
+			}
+			if usesValue && !readsM && newName == "" {
+				newName = lid.Name
+			}
+			return true
+		})
+		ps, _ := paths.Enumerate(fi.Decl.Body, paths.Config{Info: info,
 			Cond: func(c ast.Expr, v bool) *paths.Event {
-				return &paths.Event{Kind: "COND", Arg: fmt.Sprintf("%s=%v", stripSpaces(types.ExprString(c)), v)}
+				return &paths.Event{Kind: "COND", Arg: condKey(info, norm, c, v)}
 			},
 			Classify: func(n ast.Node) []paths.Event {
 				var out []paths.Event
@@ -232,7 +274,7 @@ func c14Max(p *core.Program, r *core.Report) {
 			}})
 		var probs []string
 		for _, pa := range ps {
-			less := pa.HasArg("COND", "curVal<newVal=true")
+			less := curName != "" && newName != "" && pa.HasArg("COND", cc(curName, "<", newName, true))
 			if pa.Has("STORE") != less {
 				probs = append(probs, "the register is written on a path where the new value is not larger (or not written where it is): "+pa.String())
 			}
@@ -240,8 +282,8 @@ func c14Max(p *core.Program, r *core.Report) {
 				probs = append(probs, "the reported change does not match the store")
 			}
 		}
-		if len(ps) < 2 {
-			probs = append(probs, "no comparison of the current and the new value")
+		if len(ps) < 2 || curName == "" || newName == "" {
+			probs = append(probs, "no comparison of the current register value with the new value")
 		}
 		fileProbs(r, "C14.max", "util/hll.(*RegisterSet).UpdateIfGreater", p.Pos(fi.Decl.Pos()), probs, "store and true iff cur < new")
 	}
@@ -250,26 +292,174 @@ func c14Max(p *core.Program, r *core.Report) {
 		r.Undec("C14.max", "util/hll.(*RegisterSet).Merge", "-", "not found")
 		return
 	}
-	ok := false
+	// path rule: in every iteration over a word, each register position is visited, the larger of the
+	// two masked values is OR-ed into the accumulator on both outcomes of their comparison, and the
+	// accumulator is stored; no word is skipped on a whole-word test (a word can be numerically smaller
+	// and still hold a larger register). Names are found by what the locals are computed from.
+	minfo := mf.Pkg.TypesInfo
+	mrn := recvName(mf)
+	var thatObj types.Object
+	if mf.Decl.Type.Params.NumFields() == 1 {
+		thatObj = minfo.Defs[mf.Decl.Type.Params.List[0].Names[0]]
+	}
+	thisVal, thatVal := "", ""
 	ast.Inspect(mf.Decl.Body, func(n ast.Node) bool {
-		ifs, isIf := n.(*ast.IfStmt)
-		if !isIf || ifs.Else == nil {
+		as, ok := n.(*ast.AssignStmt)
+		if !ok || len(as.Lhs) != 1 || len(as.Rhs) != 1 || as.Tok != token.DEFINE {
 			return true
 		}
-		if stripSpaces(types.ExprString(ifs.Cond)) == "thisVal<thatVal" {
-			t := stripSpaces(nodeStringFull(ifs.Body))
-			e := stripSpaces(nodeStringFull(ifs.Else))
-			ok = t == "word=thatVal;" && e == "word=thisVal;"
-			// nodeStringFull drops the assignment operator; verify it is |=
-			for _, b := range []*ast.BlockStmt{ifs.Body, ifs.Else.(*ast.BlockStmt)} {
-				if as, isA := b.List[0].(*ast.AssignStmt); !isA || as.Tok != token.OR_ASSIGN {
-					ok = false
+		lid, ok := as.Lhs[0].(*ast.Ident)
+		if !ok {
+			return true
+		}
+		ast.Inspect(as.Rhs[0], func(m ast.Node) bool {
+			if ix, ok := m.(*ast.IndexExpr); ok {
+				if sel, ok := ast.Unparen(ix.X).(*ast.SelectorExpr); ok && sel.Sel.Name == "M" {
+					if id, ok := ast.Unparen(sel.X).(*ast.Ident); ok {
+						if id.Name == mrn && thisVal == "" {
+							thisVal = lid.Name
+						} else if thatObj != nil && minfo.ObjectOf(id) == thatObj && thatVal == "" {
+							thatVal = lid.Name
+						}
+					}
 				}
 			}
-		}
+			return true
+		})
 		return true
 	})
-	r.Check(ok, "C14.max", "util/hll.(*RegisterSet).Merge", p.Pos(mf.Decl.Pos()), "ORs in the larger of the two masked register values", "the merged register is not the larger of the two values on both outcomes of their comparison")
+	norm := func(e ast.Expr) string { return stripSpaces(types.ExprString(e)) }
+	mps, _ := paths.Enumerate(mf.Decl.Body, paths.Config{Info: minfo,
+		Cond: func(c ast.Expr, v bool) *paths.Event {
+			return &paths.Event{Kind: "COND", Arg: condKey(minfo, norm, c, v)}
+		},
+		Classify: func(n ast.Node) []paths.Event {
+			var out []paths.Event
+			if as, ok := n.(*ast.AssignStmt); ok && len(as.Lhs) == 1 && len(as.Rhs) == 1 {
+				if ix, ok := as.Lhs[0].(*ast.IndexExpr); ok && strings.HasPrefix(norm(ix.X), mrn+".M") {
+					out = append(out, paths.Event{Kind: "STORE", Arg: norm(as.Rhs[0])})
+				} else if lid, ok := as.Lhs[0].(*ast.Ident); ok {
+					switch {
+					case as.Tok == token.OR_ASSIGN:
+						out = append(out, paths.Event{Kind: "ACC", Arg: lid.Name + "|=" + norm(as.Rhs[0])})
+					case as.Tok == token.ASSIGN:
+						if be, ok := ast.Unparen(as.Rhs[0]).(*ast.BinaryExpr); ok && be.Op == token.OR && norm(be.X) == lid.Name {
+							out = append(out, paths.Event{Kind: "ACC", Arg: lid.Name + "|=" + norm(be.Y)})
+						}
+					}
+				}
+			}
+			return out
+		}})
+	var mprobs []string
+	if thisVal == "" || thatVal == "" {
+		mprobs = append(mprobs, "the two masked register values (from this.M and from the argument's M) are not visible as locals")
+	}
+	sawBoth := map[bool]bool{}
+	for _, pa := range mps {
+		nLoop := pa.Count("LOOP")
+		if nLoop == 0 {
+			continue
+		}
+		// outer loop entered (its condition true) but the word is not stored: a skipped word
+		// the outer loop body was entered iff more than its condition lies between LOOP and the last ENDLOOP
+		first, last := pa.Index("LOOP"), pa.LastIndex("ENDLOOP")
+		entered := first >= 0 && last-first > 2
+		if entered && !pa.Has("STORE") {
+			mprobs = append(mprobs, "a word of the argument is skipped without merging its registers (whole-word tests cannot tell which side holds the larger register): "+pa.String())
+		}
+		for _, e := range pa {
+			if e.Kind != "ACC" {
+				continue
+			}
+			lt := pa.HasArg("COND", cc(thisVal, "<", thatVal, true))
+			ge := pa.HasArg("COND", cc(thisVal, "<", thatVal, false))
+			switch {
+			case lt && !strings.HasSuffix(e.Arg, "|="+thatVal):
+				mprobs = append(mprobs, "this < that but the merged register takes "+e.Arg)
+			case ge && !strings.HasSuffix(e.Arg, "|="+thisVal):
+				mprobs = append(mprobs, "this >= that but the merged register takes "+e.Arg)
+			case !lt && !ge:
+				mprobs = append(mprobs, "a register is accumulated without comparing the two values")
+			}
+			if lt {
+				sawBoth[true] = true
+			}
+			if ge {
+				sawBoth[false] = true
+			}
+		}
+	}
+	if !sawBoth[true] || !sawBoth[false] {
+		mprobs = append(mprobs, "the merged register is not the larger of the two values on both outcomes of their comparison")
+	}
+	fileProbs(r, "C14.max", "util/hll.(*RegisterSet).Merge", p.Pos(mf.Decl.Pos()), uniq(mprobs), "ORs in the larger of the two masked register values; every word merged")
+}
+
+// c14Widen: in the functions that compute the estimate (float64 results in util/hll), a conversion to a
+// wider type must not be applied to a product/shift of non-constant 32-bit (or narrower) integers: the
+// operation wraps before it is widened. m = 2^log2m reaches 2^16, so m*m wraps to 0 at the top precision.
+func c14Widen(p *core.Program, r *core.Report) {
+	pk := p.Pkg("util/hll")
+	if pk == nil {
+		r.Undec("C14.widen", "util/hll", "-", "package not found")
+		return
+	}
+	n := 0
+	for _, fi := range p.Funcs {
+		if fi.Pkg != pk || fi.Decl.Body == nil || strings.Contains(strings.ToLower(fi.Obj.Name()), "murmur") || strings.Contains(fi.Obj.Name(), "zzCanary") {
+			continue
+		}
+		sig := fi.Obj.Type().(*types.Signature)
+		isEst := false
+		for i := 0; i < sig.Results().Len(); i++ {
+			if b, ok := sig.Results().At(i).Type().Underlying().(*types.Basic); ok && (b.Kind() == types.Float64 || (fi.Obj.Name() == "Cardinality")) {
+				isEst = true
+			}
+		}
+		if !isEst {
+			continue
+		}
+		info := fi.Pkg.TypesInfo
+		var probs []string
+		ast.Inspect(fi.Decl.Body, func(m ast.Node) bool {
+			call, ok := m.(*ast.CallExpr)
+			if !ok || len(call.Args) != 1 {
+				return true
+			}
+			tv, ok := info.Types[call.Fun]
+			if !ok || !tv.IsType() {
+				return true
+			}
+			tb, ok := tv.Type.Underlying().(*types.Basic)
+			if !ok || !(tb.Kind() == types.Float64 || tb.Kind() == types.Int64 || tb.Kind() == types.Uint64) {
+				return true
+			}
+			n++
+			be, ok := ast.Unparen(call.Args[0]).(*ast.BinaryExpr)
+			if !ok || (be.Op != token.MUL && be.Op != token.SHL) {
+				return true
+			}
+			if atv, ok := info.Types[be]; ok && atv.Value == nil {
+				if ab, ok := atv.Type.Underlying().(*types.Basic); ok && ab.Info()&types.IsInteger != 0 && typeBits(atv.Type) <= 32 {
+					_, lc := constIntOf(info, be.X)
+					_, rc := constIntOf(info, be.Y)
+					if !lc && !(be.Op == token.SHL && rc) && !(be.Op == token.MUL && rc) {
+						probs = append(probs, fmt.Sprintf("%s is computed in %s and widened afterwards: it wraps before the conversion", stripSpaces(types.ExprString(be)), atv.Type))
+					}
+				}
+			}
+			return true
+		})
+		if len(probs) > 0 {
+			r.Viol("C14.widen", core.FuncName(fi.Obj), p.Pos(fi.Decl.Pos()), strings.Join(uniq(probs), "; "))
+		} else {
+			r.OK("C14.widen", core.FuncName(fi.Obj), p.Pos(fi.Decl.Pos()), "no widening of a narrow product")
+		}
+	}
+	if n == 0 {
+		r.Undec("C14.widen", "util/hll estimator functions", "-", "no widening conversions found in the estimator")
+	}
 }
 
 func c14Geometry(p *core.Program, r *core.Report) {
@@ -296,18 +486,62 @@ func c14Geometry(p *core.Program, r *core.Report) {
 			continue
 		}
 		info := fi.Pkg.TypesInfo
+		rn := recvName(fi)
 		var probs []string
-		masks := 0
+		// the register position parameter (first parameter) written as P = L*Q + R, 0 <= R < L; every
+		// integer expression over it is brought to a linear form over {Q, R, other variables}, so that
+		// position-(position/L)*L, position%L and locals holding either are the same thing
+		var posObj types.Object
+		if name != "Merge" && fi.Decl.Type.Params.NumFields() >= 1 {
+			posObj = info.Defs[fi.Decl.Type.Params.List[0].Names[0]]
+		}
+		lf := &linForm{info: info, body: fi.Decl.Body, pos: posObj, L: lw}
+		masks, idx, shifts := 0, 0, 0
 		ast.Inspect(fi.Decl.Body, func(n ast.Node) bool {
-			if be, ok := n.(*ast.BinaryExpr); ok && be.Op == token.SHL {
-				x := ast.Unparen(be.X)
-				if call, ok := x.(*ast.CallExpr); ok && len(call.Args) == 1 {
-					x = call.Args[0]
+			switch v := n.(type) {
+			case *ast.IndexExpr:
+				if strings.HasPrefix(stripSpaces(types.ExprString(v.X)), rn+".M") && name != "Merge" {
+					idx++
+					if f, ok := lf.eval(v.Index, 0); !ok || !f.is(map[string]int64{"Q": 1}) {
+						probs = append(probs, "word index "+stripSpaces(types.ExprString(v.Index))+" is not position/LOG2_BITS_PER_WORD")
+					}
 				}
-				if v, ok := constIntOf(info, x); ok && v > 1 {
-					masks++
-					if v != wantMask {
-						probs = append(probs, fmt.Sprintf("register mask %#x, want %#x", v, wantMask))
+			case *ast.BinaryExpr:
+				if v.Op == token.SHL || v.Op == token.SHR {
+					if _, isC := constIntOf(info, v.Y); !isC {
+						shifts++
+						f, ok := lf.eval(v.Y, 0)
+						want := map[string]int64{"R": rs}
+						if name == "Merge" {
+							want = nil
+						}
+						switch {
+						case !ok:
+							probs = append(probs, "shift amount "+stripSpaces(types.ExprString(v.Y))+" is not a linear expression of the register position")
+						case name != "Merge" && !f.is(want):
+							probs = append(probs, "bit offset "+stripSpaces(types.ExprString(v.Y))+" is not REGISTER_SIZE*(position mod LOG2_BITS_PER_WORD)")
+						case name == "Merge" && !f.singleVarTimes(rs):
+							probs = append(probs, "merge does not shift by REGISTER_SIZE*j")
+						}
+					}
+					if v.Op == token.SHL {
+						x := stripConvs(info, v.X)
+						if mv, ok := constIntOf(info, x); ok && mv > 1 {
+							masks++
+							if mv != wantMask {
+								probs = append(probs, fmt.Sprintf("register mask %#x, want %#x", mv, wantMask))
+							}
+						}
+					}
+				}
+				if v.Op == token.AND {
+					for _, side := range []ast.Expr{v.X, v.Y} {
+						if mv, ok := constIntOf(info, stripConvs(info, side)); ok && mv > 1 {
+							masks++
+							if mv != wantMask {
+								probs = append(probs, fmt.Sprintf("register mask %#x, want %#x", mv, wantMask))
+							}
+						}
 					}
 				}
 			}
@@ -316,31 +550,199 @@ func c14Geometry(p *core.Program, r *core.Report) {
 		if masks == 0 {
 			probs = append(probs, "no register mask found")
 		}
-		src := stripSpaces(nodeStringFull(fi.Decl.Body))
+		if shifts == 0 {
+			probs = append(probs, "no register bit offset found")
+		}
+		if name != "Merge" && idx == 0 {
+			probs = append(probs, "the word array is not indexed")
+		}
 		if name == "Merge" {
-			if !strings.Contains(src, "REGISTER_SIZE*j") {
-				probs = append(probs, "merge does not shift by REGISTER_SIZE*j")
-			}
 			okLoop := false
 			ast.Inspect(fi.Decl.Body, func(n ast.Node) bool {
-				if loop, ok := n.(*ast.ForStmt); ok && loop.Cond != nil && stripSpaces(types.ExprString(loop.Cond)) == "j<LOG2_BITS_PER_WORD" {
-					okLoop = true
+				if loop, ok := n.(*ast.ForStmt); ok && loop.Cond != nil {
+					if be, ok := loop.Cond.(*ast.BinaryExpr); ok && be.Op == token.LSS {
+						if bv, ok := constIntOf(info, be.Y); ok && bv == lw {
+							okLoop = true
+						}
+					}
 				}
 				return true
 			})
 			if !okLoop {
 				probs = append(probs, "merge does not visit exactly LOG2_BITS_PER_WORD registers per word")
 			}
-		} else {
-			if !strings.Contains(src, "position/LOG2_BITS_PER_WORD") {
-				probs = append(probs, "word index is not position/LOG2_BITS_PER_WORD")
+		}
+		fileProbs(r, "C14.geometry", c, p.Pos(fi.Decl.Pos()), uniq(probs), "mask and addressing agree with the siblings")
+	}
+}
+
+// linForm evaluates integer expressions to linear forms sum(coef*sym) + const over the symbols Q and R
+// (the position parameter is L*Q + R with 0 <= R < L) and other variables by name. Locals with a
+// single definition are substituted; conversions are transparent.
+type linForm struct {
+	info *types.Info
+	body *ast.BlockStmt
+	pos  types.Object
+	L    int64
+}
+
+type lform map[string]int64 // "" = constant term
+
+func (f lform) clean() lform {
+	for k, v := range f {
+		if v == 0 {
+			delete(f, k)
+		}
+	}
+	return f
+}
+
+func (f lform) is(want map[string]int64) bool {
+	f.clean()
+	if len(f) != len(want) {
+		return false
+	}
+	for k, v := range want {
+		if f[k] != v {
+			return false
+		}
+	}
+	return true
+}
+
+// singleVarTimes: the form is k * <one loop variable> (no constant, no position)
+func (f lform) singleVarTimes(k int64) bool {
+	f.clean()
+	if len(f) != 1 {
+		return false
+	}
+	for s, v := range f {
+		if s == "" || s == "Q" || s == "R" || v != k {
+			return false
+		}
+	}
+	return true
+}
+
+func (l *linForm) singleDef(obj types.Object) ast.Expr {
+	var def ast.Expr
+	n := 0
+	ast.Inspect(l.body, func(m ast.Node) bool {
+		switch v := m.(type) {
+		case *ast.AssignStmt:
+			if len(v.Lhs) == len(v.Rhs) {
+				for i, lh := range v.Lhs {
+					if id, ok := lh.(*ast.Ident); ok && l.info.ObjectOf(id) == obj {
+						def = v.Rhs[i]
+						n++
+					}
+				}
 			}
-			if !(strings.Contains(src, "REGISTER_SIZE*(position-(bucketPos*LOG2_BITS_PER_WORD))") || strings.Contains(src, "REGISTER_SIZE*(position-(bucket*LOG2_BITS_PER_WORD))") || strings.Contains(src, "REGISTER_SIZE*(position%LOG2_BITS_PER_WORD)")) {
-				probs = append(probs, "bit offset is not REGISTER_SIZE*(position mod LOG2_BITS_PER_WORD)")
+		case *ast.IncDecStmt:
+			if id, ok := v.X.(*ast.Ident); ok && l.info.ObjectOf(id) == obj {
+				n += 2
 			}
 		}
-		fileProbs(r, "C14.geometry", c, p.Pos(fi.Decl.Pos()), probs, "mask and addressing agree with the siblings")
+		return true
+	})
+	if n == 1 {
+		return def
 	}
+	return nil
+}
+
+func (l *linForm) eval(e ast.Expr, depth int) (lform, bool) {
+	if depth > 8 {
+		return nil, false
+	}
+	e = stripConvs(l.info, e)
+	if v, ok := constIntOf(l.info, e); ok {
+		return lform{"": v}, true
+	}
+	switch v := e.(type) {
+	case *ast.Ident:
+		obj := l.info.ObjectOf(v)
+		if obj != nil && obj == l.pos {
+			return lform{"Q": l.L, "R": 1}, true
+		}
+		if obj != nil {
+			if d := l.singleDef(obj); d != nil {
+				return l.eval(d, depth+1)
+			}
+		}
+		return lform{v.Name: 1}, true
+	case *ast.BinaryExpr:
+		a, ok1 := l.eval(v.X, depth+1)
+		b, ok2 := l.eval(v.Y, depth+1)
+		if !ok1 || !ok2 {
+			return nil, false
+		}
+		konst := func(f lform) (int64, bool) {
+			f.clean()
+			if len(f) == 0 {
+				return 0, true
+			}
+			if len(f) == 1 {
+				if c, ok := f[""]; ok {
+					return c, true
+				}
+			}
+			return 0, false
+		}
+		switch v.Op {
+		case token.ADD, token.SUB:
+			out := lform{}
+			for k, x := range a {
+				out[k] += x
+			}
+			for k, x := range b {
+				if v.Op == token.ADD {
+					out[k] += x
+				} else {
+					out[k] -= x
+				}
+			}
+			return out.clean(), true
+		case token.MUL:
+			if c, ok := konst(a); ok {
+				a, b = b, a
+				_ = c
+			}
+			c, ok := konst(b)
+			if !ok {
+				return nil, false
+			}
+			out := lform{}
+			for k, x := range a {
+				out[k] = x * c
+			}
+			return out.clean(), true
+		case token.QUO, token.REM:
+			c, ok := konst(b)
+			if !ok || c <= 0 {
+				return nil, false
+			}
+			// split a = c*X + rest, where rest is known to lie in [0, c): only R with 0 <= coef*R < c
+			quot, rest := lform{}, lform{}
+			for k, x := range a {
+				if x%c == 0 {
+					quot[k] = x / c
+				} else {
+					rest[k] = x
+				}
+			}
+			rest.clean()
+			inRange := len(rest) == 0 || (len(rest) == 1 && rest["R"] > 0 && rest["R"]*(l.L-1) < c)
+			if !inRange {
+				return nil, false
+			}
+			if v.Op == token.QUO {
+				return quot.clean(), true
+			}
+			return rest, true
+		}
+	}
+	return nil, false
 }
 
 func c14Index(p *core.Program, r *core.Report) {
